@@ -67,6 +67,7 @@ func c16(tier string) []*explore.Scenario {
 	}
 	out = append(out, c16RPC("payloads", true, 0))
 	out = append(out, c16Burst(12, 0), c16Burst(50, 0), c16Burst(24, 1))
+	out = append(out, withoutDisconnectCallback(pickScenarios(out, "C16/opseq/", "C16/reattach/after-old-fails")...)...)
 	return out
 }
 
